@@ -817,6 +817,9 @@ func (p *parser) getDeclForDefinition(nameTok *token.Token) *ast.FuncDecl {
 
 func isAliasParam(t token.Token) bool   { return t.Type == token.ALIAS_PARAMETER } // helper to check for parameters
 func isIllegalToken(t token.Token) bool { return t.Type == token.ILLEGAL }         // helper to check for illegal tokens
+func isAliasWord(t token.Token) bool { // helper to check for tokens that are neither parameters nor the EOF
+	return t.Type != token.ALIAS_PARAMETER && t.Type != token.EOF
+}
 
 // helper for funcDeclaration to check that every parameter is provided exactly once
 // and that no ILLEGAL tokens are present
@@ -838,6 +841,19 @@ func (p *parser) validateFunctionAlias(aliasTokens []token.Token, params []ast.P
 			ddperror.LEVEL_ERROR,
 			token.NewRange(&aliasTokens[len(aliasTokens)-1], &aliasTokens[len(aliasTokens)-1]),
 			"Der Alias enthält ungültige Symbole",
+			p.module.FileName,
+		)
+		return &err
+	}
+
+	// an alias that consists only of parameters would match every expression,
+	// including its own arguments, without ever consuming a token
+	if countElements(aliasTokens, isAliasWord) == 0 {
+		err := ddperror.New(
+			ddperror.SEM_MALFORMED_ALIAS,
+			ddperror.LEVEL_ERROR,
+			token.NewRange(&aliasTokens[len(aliasTokens)-1], &aliasTokens[len(aliasTokens)-1]),
+			"Ein Alias muss mindestens ein Symbol enthalten, das kein Parameter ist",
 			p.module.FileName,
 		)
 		return &err
